@@ -441,14 +441,42 @@ fn stress(rep: &mut Report, threads: usize, ops: usize, contents: usize, seed: u
     let errors = Arc::new(Mutex::new(Vec::<String>::new()));
     let barrier = Arc::new(std::sync::Barrier::new(threads));
     let shared_ptrs: Arc<Mutex<HashMap<(usize, usize), usize>>> = Arc::new(Mutex::new(HashMap::new()));
+    // Continuous oracle: a registry of the buffer addresses of all handles that are live right now.
+    // A handle is registered after its constructing call returned and unregistered before its drop
+    // begins, so every registered handle is live; two registered handles of one content on
+    // different buffers are therefore a violation at that instant (no barrier needed).
+    let registry: Arc<Mutex<HashMap<usize, HashMap<usize, usize>>>> = Arc::new(Mutex::new(HashMap::new()));
+    let churn = contents > 3;
     let hs: Vec<_> = (0..threads)
         .map(|t| {
             let errors = errors.clone();
             let barrier = barrier.clone();
             let shared_ptrs = shared_ptrs.clone();
+            let registry = registry.clone();
             std::thread::spawn(move || {
                 let mut rng = Rng::derive(seed, "sstr-stress", t as u64);
                 let mut held: Vec<(usize, SharedString)> = vec![];
+                let reg = |c: usize, h: &SharedString, errors: &Mutex<Vec<String>>| {
+                    let p = h.data().as_ptr() as usize;
+                    let mut r = registry.lock().unwrap();
+                    let e = r.entry(c).or_default();
+                    *e.entry(p).or_insert(0) += 1;
+                    if e.len() > 1 {
+                        errors.lock().unwrap().push(format!("dedup: content {} is live on {} different buffers at once", c, e.len()));
+                    }
+                };
+                let unreg = |c: usize, h: &SharedString| {
+                    let p = h.data().as_ptr() as usize;
+                    let mut r = registry.lock().unwrap();
+                    if let Some(e) = r.get_mut(&c) {
+                        if let Some(n) = e.get_mut(&p) {
+                            *n -= 1;
+                            if *n == 0 {
+                                e.remove(&p);
+                            }
+                        }
+                    }
+                };
                 for round in 0..rounds {
                     for _ in 0..per_round {
                         match rng.below(4) {
@@ -459,21 +487,29 @@ fn stress(rep: &mut Report, threads: usize, ops: usize, contents: usize, seed: u
                                 if h.data() != &bytes[..] {
                                     errors.lock().unwrap().push("data-mismatch: new".into());
                                 }
+                                reg(c, &h, &errors);
                                 held.push((c, h));
                             }
                             2 if !held.is_empty() => {
                                 let i = rng.below(held.len());
-                                let (c, h) = (&held[i].0, held[i].1.clone());
-                                held.push((*c, h));
+                                let (c, h) = (held[i].0, held[i].1.clone());
+                                reg(c, &h, &errors);
+                                held.push((c, h));
                             }
                             _ if !held.is_empty() => {
                                 let i = rng.below(held.len());
-                                held.swap_remove(i);
+                                let (c, h) = held.swap_remove(i);
+                                unreg(c, &h);
+                                drop(h);
                             }
                             _ => {}
                         }
-                        if held.len() > 64 {
-                            held.truncate(32);
+                        // churn mode: hold very little so contents keep dying and being re-created concurrently
+                        let cap = if churn { 2 } else { 64 };
+                        while held.len() > cap {
+                            let (c, h) = held.pop().unwrap();
+                            unreg(c, &h);
+                            drop(h);
                         }
                     }
                     // quiescent point: everybody publishes the buffer address per content it holds
@@ -491,7 +527,10 @@ fn stress(rep: &mut Report, threads: usize, ops: usize, contents: usize, seed: u
                     }
                     barrier.wait();
                 }
-                drop(held);
+                for (c, h) in held.drain(..) {
+                    unreg(c, &h);
+                    drop(h);
+                }
             })
         })
         .collect();
@@ -551,6 +590,9 @@ pub fn main(a: &Args) {
             let seed = a.u64("seed", 1);
             stress(&mut rep, a.usize("threads", 16), a.usize("ops", 1_000_000), a.usize("contents", 3), seed + shard, true);
             stress(&mut rep, a.usize("threads", 16), a.usize("ops", 1_000_000), 2, seed + shard + 1000, false);
+            // churn: many contents, almost nothing held, so the "not yet interned / just released" paths of new() race
+            stress(&mut rep, a.usize("threads", 16), a.usize("ops", 1_000_000), 6, seed + shard + 2000, true);
+            stress(&mut rep, 4, a.usize("ops", 1_000_000) / 2, 4, seed + shard + 3000, false);
             rep.nontrivial(1);
             rep.nontrivial(2);
             rep.sample(json!({"stress": {"threads": a.usize("threads", 16), "ops": a.usize("ops", 1_000_000)}}));
